@@ -2,11 +2,16 @@
 LEVEL = {"C15": "fault_enumeration"}
 
 ENGINES = [
+    {"name": "E2-brokermc", "path": "e2", "serves_properties": ["C01", "C02", "C03", "C05", "C07", "C11", "C12", "C13", "C14", "C16", "C17", "C18"],
+     "kind_free_text": "complete 1-3 node broker wired in-process like cmd/wasp/main.go inside a Go 1.26 testing/synctest bubble (virtual time, exact quiescence); DFS over enumerated environment-event sequences, each path replayed from a fresh world in crash-contained worker processes"},
     {"name": "E1-seqx", "path": "e1", "serves_properties": ["C01", "C04", "C06", "C07", "C08", "C09", "C10", "C16", "C19"],
      "kind_free_text": "explicit-state BFS to fixpoint / exhaustive bounded operation sequences on the real data structures, in lock-step with a Go reference model"},
 ]
 
 PHASES = {
+    "C02": [
+        {"pkg": "e2", "test": "TestC02Delivery", "phase": "C02/acknowledged-publish-delivered"},
+    ],
     "C01": [
         {"pkg": "e1", "test": "TestC01Matcher", "phase": "C01/matcher-pairs"},
         {"pkg": "e1", "test": "TestC01Independence", "phase": "C01/filter-independence"},
@@ -40,6 +45,12 @@ PHASES = {
 }
 
 META = {
+    "C02": {
+        "engine": "E2-brokermc",
+        "technique": "explicit enumeration of publish-event sequences x message-log states on the complete in-process broker under virtual time (synctest), run to quiescence after every event",
+        "text": "Every publish sequence (2 publishers x QoS 0/1/2) up to depth 2-3 (quick) / 3-4 (thorough) from an empty log and from logs pre-filled to 19 lengths around batch (10), segment (500) and truncation (1500/1000) boundaries, with and without a restarted consumer; payload sizes at the encoder's length edges; plus a boundary sweep over P in 1..2600. Every publish whose PUBACK/PUBCOMP the publisher read must appear, topic and payload intact, at each of three connected subscribers (QoS 0/1/2) within 30 s of virtual time.",
+        "note": "One node (remote delivery is C14); subscribers acknowledge promptly; real commit log on /dev/shm; run-to-completion between events.",
+    },
     "C01": {
         "engine": "E1-seqx + E2-brokermc",
         "technique": "exhaustive (filter, topic) enumeration and bounded subscription histories on the real trie / replicated state vs an MQTT 4.7 reference; explicit event exploration of the in-process broker for bytes on the wire",
